@@ -10,7 +10,7 @@ _FSTR = re.compile(r"^\s*f(['\"]).*\1\s*$")
 AWKWARD_STR = ['', ' ', 'yes', 'no', 'on', '~', 'null', 'Null', 'true', '1e3', '0x10', '010', '1_000', '.5', '-', '?', '-.inf',
                'a: b', '- x', '#c', "it's", 'say "hi"', 'multi\nline', 'tab\there', 'é中😀', '{x}', '[y]', '!tag', '&a', '*a', '%d',
                '@x', '`q`', 'a,b', 'trail ', ' lead', '1.0', '2001-01-01x', 'key: value', '|', '>', "''", '""', '\\n', 'x' * 90,
-               "f'{1+1}'", 'f"a"', '12', '-3', '1.5e+3', 'two\nlines']
+               "f'{1+1}'", 'f"a"', '12', '-3', '1.5e+3', 'two\nlines', 'ends with a line break\n', 'a\nb\n', 'keeps\n\n\n']
 
 _text = st.text(alphabet=st.sampled_from(list('abcxyz019 _-.:,#\'"{}[]!&*?|>%@`\\/\n\t') + ['é', '中', '😀']), max_size=12)
 
